@@ -350,12 +350,47 @@ def r09_3(prog, out):
                 continue
             key = "topic-id-source:%s" % prog.short(bid)
             o = prog.receiver_origin(bi, ints[0])
-            if any(nid in cells_of(prog, bi, prog.receiver_origin(bi, a)) for a in ints):
+            recycled = sorted(recycled_sources(prog, bi, ints[0], tstate, nid, A.ty("Topic")))
+            if recycled and any(nid in cells_of(prog, bi, prog.receiver_origin(bi, a)) for a in ints):
+                out.violation(key, bi.loc(bb), "the topic's internal id comes from the manager's counter on one path and from stored state on another (%s): an id that "
+                              "was in use before is handed out again, and with it every message id of the earlier topic" % ", ".join("%s.%s" % (short_ty(f[0]), f[1]) for f in recycled))
+            elif any(nid in cells_of(prog, bi, prog.receiver_origin(bi, a)) for a in ints):
                 out.holds(key, bi.loc(bb), "Topic::new receives the manager's next_id")
             else:
                 out.violation(key, bi.loc(bb), "the topic's internal id does not come from the manager's counter (%r)" % o)
     # (4) bit layout of the constructor
     bit_layout(prog, out, ctor)
+
+
+def recycled_sources(prog, bi, op, tstate, nid, topic_ty, depth=0, seen=None):
+    """state cells other than the counter that one of the assignments feeding `op` reads (followed through moves, `?`, Option
+    payloads and value-preserving calls -- not through `self` as a whole)"""
+    seen = seen if seen is not None else set()
+    out = set()
+    if op.place is None or depth > 6:
+        return out
+    o = prog.receiver_origin(bi, op)
+    for c in o.cells():
+        if (c[0] == tstate and c != nid) or c == (topic_ty, "internal_id"):
+            out.add(c)
+    if o.kind == "local" and isinstance(o.data, int) and o.data not in seen:
+        seen.add(o.data)
+        for (bb, i) in bi.defs.get(o.data, []):
+            if i >= 0:
+                st = bi.stmt(bb, i)
+                for x in st.rv.ops:
+                    out |= recycled_sources(prog, bi, x, tstate, nid, topic_ty, depth + 1, seen)
+            else:
+                t = bi.call_at(bb)
+                if t is not None and t.callee is not None and t.callee.path.split("::")[-1] in ("map", "unwrap_or", "unwrap_or_else", "unwrap_or_default", "copied", "cloned", "remove", "get", "pop_front", "pop_back", "and_then"):
+                    for x in t.args[:1]:
+                        out |= recycled_sources(prog, bi, x, tstate, nid, topic_ty, depth + 1, seen)
+    if o.kind == "call" and isinstance(o.data, int):
+        t = bi.call_at(o.data)
+        if t is not None and t.callee is not None and t.callee.path.split("::")[-1] in ("map", "unwrap_or", "unwrap_or_else", "unwrap_or_default", "copied", "cloned", "remove", "get", "pop_front", "pop_back", "and_then"):
+            for x in t.args[:1]:
+                out |= recycled_sources(prog, bi, x, tstate, nid, topic_ty, depth + 1, seen)
+    return out
 
 
 def cells_of(prog, bi, o):
